@@ -538,7 +538,13 @@ class Ev:
                 hi = self.ev(e.slice.upper) if e.slice.upper else None
                 stp = self.ev(e.slice.step) if e.slice.step else None
                 return base[lo:hi:stp]
-            return base[self.ev(e.slice)]
+            idx = self.ev(e.slice)
+            try:
+                return base[idx]
+            except IndexError:
+                if isinstance(base, (list, tuple, str)):
+                    raise Raised(f"IndexError({type(base).__name__} index {idx!r} out of range, length {len(base)})") from None
+                raise
         if isinstance(e, ast.Attribute):
             if isinstance(e.value, ast.Name) and e.value.id not in self.env and e.value.id in PURE_MODULES \
                     and hasattr(PURE_MODULES[e.value.id], e.attr):
